@@ -16,7 +16,7 @@ B3E_FAMILY = ['B3E', 'KB3E', 'TB3E', 'S4B3E', 'S5B3E']
 FDE_FAMILY = ['FDE', 'KFDE', 'TFDE', 'S4FDE', 'S5FDE']
 
 
-def run_jobs(jobs: list[dict], tag: str, nproc=None):
+def run_jobs(jobs: list[dict], tag: str, nproc=None, chunk=50):
     nproc = nproc or C.NCPU
     """jobs carry an 'order' field (default 0).  Returns the list of record files."""
     d = C.subdir(f'proofs-{tag}')
@@ -30,7 +30,7 @@ def run_jobs(jobs: list[dict], tag: str, nproc=None):
     for o, js in sorted(by_order.items()):
         jf = d / f'jobs-o{o}.ndjson'
         C.write_ndjson(jf, js)
-        n = min(per, max(1, len(js) // 50))
+        n = min(per, max(1, len(js) // chunk))
         for k in range(n):
             out = d / f'recs-o{o}-{k}.ndjson'
             outs.append(out)
